@@ -6,6 +6,7 @@ pub mod ddmin;
 pub mod evidence;
 pub mod findings;
 pub mod hashseed;
+pub mod isolate;
 pub mod rng;
 pub mod workers;
 
